@@ -699,6 +699,24 @@ def encode_records(schema, msg, rng=None, knobs=None):
             if knobs.get('stale') and f.type not in (T_MESSAGE,) and not f.oneof and rng.random() < 0.3:
                 # an earlier, overridden occurrence of a singular scalar/string/bytes field
                 recs.append(enc_elem(schema, f, rand_val(rng, schema, f, 9), rng, knobs))
+            if knobs.get('multi_oneof') and f.oneof and rng.random() < 0.5:
+                # an earlier occurrence of another (or the same) member of the oneof: the last one wins
+                others = [g for g in m.fields if g.group == f.group and (g.type != T_MESSAGE)]
+                if others:
+                    g = rng.choice(others)
+                    recs.append(enc_elem(schema, g, rand_val(rng, schema, g, 9), rng, knobs))
+            if (knobs.get('split_msg') and f.type == T_MESSAGE and s[2][0] == 'msg' and s[2][1] is not None
+                    and not any(x.label == L_REQ for x in schema.msgs[f.sub].fields) and rng.random() < 0.7):
+                # the sub-message delivered in 2..3 occurrences that the parser must merge
+                sub_recs = encode_records(schema, s[2][1], rng, knobs)
+                k = rng.choice([2, 2, 3])
+                cuts = sorted(rng.randrange(0, len(sub_recs) + 1) for _ in range(k - 1))
+                parts = [sub_recs[a:b] for a, b in zip([0] + cuts, cuts + [len(sub_recs)])]
+                for part in parts:
+                    body = b''.join(part)
+                    recs.append(enc_key(f.id, 2, rng, knobs.get('pad', False)) + enc_len(len(body), rng, knobs.get('pad', False)) + body)
+                msg.setdefault('_split', True)
+                continue
             recs.append(enc_elem(schema, f, s[2], rng, knobs))
     for tag, wt, data in msg['unk']:
         recs.append(enc_key(tag, wt, rng, knobs.get('pad', False)) + bytes(data))
